@@ -206,7 +206,7 @@ def to_objs(wires, lam):
     for w in wires:
         out.append(dict(type='wire', n=int(w['n']),
                         p1=[r6(x * lam) for x in w['p1']], p2=[r6(x * lam) for x in w['p2']],
-                        r=r6(w['r'] * lam), tag=None, taper=0, tmin=None, tmax=None))
+                        r=r6(w['r'] * lam), tag=None, taper=0, tmin=None, tmax=None, _rev=bool(w.get('_rev'))))
     # grounded ends must stay exactly 0 after rounding
     return out
 
@@ -354,3 +354,32 @@ def antenna(draw, env_kinds=('free', 'ideal'), max_wires=4, max_seg=10, min_seg=
         draw(sources(case, nsrc[0], nsrc[1], src_form))
     case['_info'] = dict(info, tag_style=style, tapered=tp)
     return case
+
+
+# ---------------------------------------------------------------------------
+# loads
+
+@st.composite
+def lumped_load(draw, kinds=('z', 'rlc', 'trap', 'laplace'), passive=True):
+    k = draw(st.sampled_from(kinds))
+    if k == 'z':
+        re = draw(st.one_of(st.just(0.0), logf(1e-3, 1e6)))
+        im = draw(st.one_of(st.just(0.0), logf(1e-3, 1e6))) * draw(st.sampled_from([1, -1]))
+        if not passive and draw(st.integers(0, 5)) == 0:
+            re = -re
+        return {'kind': 'z', 'z': [r6(re), r6(im)]}
+    if k == 'rlc':
+        which = draw(st.sampled_from(['RLC', 'RLC', 'RL', 'RC', 'LC', 'R', 'L', 'C']))
+        return {'kind': 'rlc',
+                'R': r6(draw(logf(1e-3, 1e6))) if 'R' in which else None,
+                'L': r6(draw(logf(1e-9, 1e-3))) if 'L' in which else None,
+                'C': r6(draw(logf(1e-15, 1e-6))) if 'C' in which else None}
+    if k == 'trap':
+        return {'kind': 'trap', 'R': r6(draw(logf(1e-3, 1e3))), 'L': r6(draw(logf(1e-9, 1e-3))),
+                'C': r6(draw(logf(1e-15, 1e-6)))}
+    order = draw(st.integers(0, 3))
+    # a passive, well defined rational function: build from an R-L-C ladder would be ideal; here
+    # positive coefficients keep numerator and denominator away from zero on the j-omega axis
+    b = [r6(draw(logf(1e-3, 1e3)) * (1e-7 ** i)) for i in range(order + 1)]
+    a = [r6(draw(logf(1e-3, 1e3)) * (1e-7 ** i)) for i in range(draw(st.integers(1, order + 1)))]
+    return {'kind': 'laplace', 'a': a, 'b': b}
